@@ -161,7 +161,7 @@ namespace {
           sink->push_back(out); // the statements of the outermost block are kept apart so that replays can be shrunk
           out.clear();
         }
-        const int k = int(rng.below(d <= 0 ? 12 : 26));
+        const int k = int(rng.below(d <= 0 ? 12 : 28));
         switch (k) {
         case 0:
         case 1:
@@ -264,6 +264,25 @@ namespace {
         case 21: {
           const std::string x = nm("r");
           out += "var &" + x + " = held_ref(); by_ref(" + x + "); ";
+          break;
+        }
+        case 26: {
+          // a C++ function re-seats the shared_ptr the script variable holds; the variable is then used on
+          // const and non-const paths
+          if (!objs.empty()) {
+            const std::string x = rng.pick(objs);
+            out += "reseat(" + x + ", " + num() + "); by_cref(" + x + "); t(" + x + ".value()); by_value(" + x + "); " + x + ".set_value(" + num() + "); ";
+          } else {
+            const std::string x = nm("x");
+            out += "var " + x + " = make_shared_t(" + num() + "); reseat(" + x + ", " + num() + "); by_cref(" + x + "); by_cptr(" + x + "); ";
+            objs.push_back(x);
+          }
+          break;
+        }
+        case 27: {
+          // a call that only resolves through an arithmetic conversion of another argument, and whose callee throws
+          const std::string arg = objs.empty() ? "Tracked(" + num() + ")" : rng.pick(objs);
+          out += "try { scale_throw(" + arg + ", " + std::to_string(rng.range(1, 9)) + "); } catch (e) { t(-4) } ";
           break;
         }
         case 25: {
@@ -444,6 +463,12 @@ namespace {
         e.add(fun([](int v) { return std::shared_ptr<const TrackedDerived>(std::make_shared<TrackedDerived>(v)); }), "make_const_derived");
         e.add(fun([&kept_values](const Boxed_Value &bv) { kept_values.push_back(bv); }), "keep_value");
         e.eval("def as_base(Tracked b) { return b }");
+        e.add(fun([](std::shared_ptr<Tracked> &p, int v) { p = std::make_shared<Tracked>(v); }), "reseat");
+        e.add(fun([](Tracked &t, double f) -> double {
+                (void)t.value();
+                throw std::runtime_error("scale_throw " + std::to_string(f));
+              }),
+              "scale_throw");
 
         Boxed_Value result;
         try {
